@@ -568,7 +568,30 @@ function bigC13(H) {
 async function c04node(listFile) {
   const items = JSON.parse(fs.readFileSync(listFile, "utf8"));
   const results = [];
+  // watchdog: a module whose load / buildParsers / validate never returns. The main thread may be
+  // stuck in synchronous code, so a second thread watches a shared progress counter and the
+  // process CPU time; it reports the module that was being checked and ends the process.
+  const sab = new SharedArrayBuffer(8);
+  const progress = new Int32Array(sab);
+  const wcode = `
+    const { workerData } = require("node:worker_threads");
+    const fs = require("node:fs");
+    const p = new Int32Array(workerData.sab);
+    let last = -1, cpuAt = process.cpuUsage();
+    setInterval(() => {
+      const cur = Atomics.load(p, 0);
+      if (cur !== last) { last = cur; cpuAt = process.cpuUsage(); return; }
+      const d = process.cpuUsage(cpuAt);
+      if ((d.user + d.system) / 1e6 > 20) {
+        fs.writeSync(1, JSON.stringify({ stalled_at: cur }) + "\\n");
+        process.kill(process.pid, "SIGKILL");
+      }
+    }, 500);`;
+  const wd = new WorkerThread(wcode, { eval: true, workerData: { sab } });
+  wd.unref();
+  let idx = 0;
   for (const it of items) {
+    Atomics.store(progress, 0, idx++);
     const r = { hash: it.hash, ok: true };
     try {
       const m = await import(pathToFileURL(it.file).href);
@@ -618,20 +641,6 @@ async function c04node(listFile) {
               if (!own(e)) bad = { op: "parse", error: String(e && e.name) + ": " + String(e && e.message).slice(0, 200) };
             }
           }
-          if (!bad) {
-            // the other features of a built parser are not part of C04's statement ("builds a parser
-            // for every name requested"): failures with foreign errors are noted, not alarmed
-            for (const [name, f] of [["schema", () => p.schema()], ["describe", () => p.describe()], ["hash", () => p.hash()], ["hash256", () => p.hash256()]]) {
-              try {
-                f();
-              } catch (e) {
-                if (!(own(e) && name === "schema")) {
-                  r.notes = r.notes || [];
-                  r.notes.push({ key: k, op: name, error: String(e && e.name) + ": " + String(e && e.message).slice(0, 120) });
-                }
-              }
-            }
-          }
           if (bad) {
             r.ok = false;
             r.class = "module-parser-fails-when-used";
@@ -645,9 +654,10 @@ async function c04node(listFile) {
       r.class = "module-does-not-load";
       r.detail = { message: String(e && e.message).slice(0, 300) };
     }
-    results.push(r);
+    fs.writeSync(1, JSON.stringify(r) + "\n");
   }
-  process.stdout.write(JSON.stringify(results) + "\n");
+  fs.writeSync(1, JSON.stringify({ done: true }) + "\n");
+  process.exit(0);
 }
 
 // ------------------------------------------------------------------------------------------------
